@@ -762,7 +762,8 @@ fn decompress_udp(
         return Err(Error);
     }
     let udp_payload_len = if let Some(total_len) = total_len {
-        total_len - *payload_len - 8
+        // The datagram size of the fragment header may be too small for the headers it carries.
+        total_len.checked_sub(*payload_len + 8).ok_or(Error)?
     } else {
         payload.len()
     };
